@@ -321,6 +321,123 @@ Proof.
 Qed.
 
 (* ================================================================== *)
+(* 3b. subsequences and [select]                                        *)
+(* ================================================================== *)
+Inductive subseq {A : Type} : list A -> list A -> Prop :=
+| subseq_nil : subseq [] []
+| subseq_skip x l1 l2 : subseq l1 l2 -> subseq l1 (x :: l2)
+| subseq_take x l1 l2 : subseq l1 l2 -> subseq (x :: l1) (x :: l2).
+
+Section SelectLemmas.
+  Context {A : Type}.
+  Implicit Types l : list A.
+
+  Lemma subseq_nil_l l : subseq [] l.
+  Proof. induction l; constructor; assumption. Qed.
+
+  Lemma subseq_refl l : subseq l l.
+  Proof. induction l; constructor; assumption. Qed.
+
+  Lemma select_subseq flags : forall l, subseq (select flags l) l.
+  Proof.
+    induction flags as [|b fs IH]; intros [|x t]; cbn [select];
+      try apply subseq_nil_l.
+    - destruct b; apply subseq_nil_l.
+    - destruct b; constructor; apply IH.
+  Qed.
+
+  Lemma select_hd flags l :
+    fl flags 0 = false -> hd_error (select flags l) = hd_error l.
+  Proof.
+    destruct flags as [|b fs]; [discriminate|].
+    unfold fl; cbn [nth]. intros ->. destruct l; reflexivity.
+  Qed.
+
+  Lemma last_indep l : l <> [] -> forall d d', last l d = last l d'.
+  Proof.
+    induction l as [|x t IH]; intros Hne d d'; [contradiction|].
+    destruct t as [|y t']; [reflexivity|].
+    change (last (y :: t') d = last (y :: t') d'). apply IH. discriminate.
+  Qed.
+
+  Lemma last_cons_default l x d : last (x :: l) d = last l x.
+  Proof.
+    destruct l as [|y t]; [reflexivity|].
+    change (last (y :: t) d = last (y :: t) x). apply last_indep. discriminate.
+  Qed.
+
+  Lemma select_last flags : forall l,
+    length flags = length l -> fl flags (length l - 1) = false ->
+    forall d, last (select flags l) d = last l d.
+  Proof.
+    induction flags as [|b fs IH]; intros [|x t] Hlen Hf d; try discriminate.
+    cbn [length] in Hlen. destruct t as [|y t'].
+    - destruct fs; [|discriminate]. cbn [length] in Hf.
+      unfold fl in Hf. cbn [nth Nat.sub] in Hf. subst b. reflexivity.
+    - assert (Hf' : fl fs (length (y :: t') - 1) = false).
+      { unfold fl in *. cbn [length Nat.sub nth] in *.
+        rewrite Nat.sub_0_r in *. assumption. }
+      assert (Hlen' : length fs = length (y :: t')) by lia.
+      destruct b; cbn [select].
+      + rewrite (IH (y :: t') Hlen' Hf' d). reflexivity.
+      + rewrite last_cons_default. rewrite (IH (y :: t') Hlen' Hf' x).
+        symmetry. apply last_cons_default.
+  Qed.
+
+  Lemma select_length_le2 flags : forall l u v,
+    (forall k, k <> u -> k <> v -> fl flags k = true) ->
+    length (select flags l) <= 2.
+  Proof.
+    (* count the unflagged positions: they are among {u, v} *)
+    assert (Hgen : forall (fs : list bool) (l : list A) (S : list nat),
+               (forall k, fl fs k = false -> In k S) -> NoDup S ->
+               length (select fs l) <= length S).
+    { induction fs as [|b fs IH]; intros l S HS Hnd.
+      - cbn [select]. cbn [length]. lia.
+      - destruct l as [|x t]; [destruct b; cbn [select length]; lia|].
+        set (S' := map pred (filter (fun k => negb (k =? 0)) S)).
+        assert (HS' : forall k, fl fs k = false -> In k S').
+        { intros k Hk. unfold S'. apply in_map_iff. exists (Datatypes.S k).
+          split; [reflexivity|]. apply filter_In. split; [|reflexivity].
+          apply HS. unfold fl. cbn [nth]. exact Hk. }
+        assert (Hnd' : NoDup S').
+        { unfold S'. clear - Hnd. induction Hnd as [|k S Hk Hnd IHn];
+            cbn [filter map]; [constructor|].
+          destruct (Nat.eqb_spec k 0) as [->|Hk0]; cbn [negb map]; [assumption|].
+          constructor; [|assumption].
+          intros Hin. apply in_map_iff in Hin. destruct Hin as (k' & Hp & Hin').
+          apply filter_In in Hin'. destruct Hin' as [Hin' Hk'].
+          destruct (Nat.eqb_spec k' 0); [discriminate|].
+          assert (k' = k) by lia. subst k'. contradiction. }
+        assert (Hlen' : length S' = length (filter (fun k => negb (k =? 0)) S))
+          by (unfold S'; apply map_length).
+        specialize (IH t S' HS' Hnd').
+        destruct b; cbn [select length].
+        + pose proof (filter_length_le (fun k => negb (k =? 0)) S). lia.
+        + assert (H0 : In 0 S) by (apply HS; reflexivity).
+          assert (Hlt : length (filter (fun k => negb (k =? 0)) S) < length S).
+          { clear - H0. induction S as [|k S IHS]; [contradiction|].
+            cbn [filter]. destruct (Nat.eqb_spec k 0) as [->|Hk0]; cbn [negb length].
+            - pose proof (filter_length_le (fun k => negb (k =? 0)) S). lia.
+            - destruct H0 as [|H0]; [congruence|]. specialize (IHS H0). lia. }
+          lia. }
+    intros l u v H.
+    destruct (Nat.eq_dec u v) as [->|Huv].
+    - specialize (Hgen flags l [v]). cbn [length] in Hgen.
+      etransitivity; [apply Hgen|lia].
+      + intros k Hk. destruct (Nat.eq_dec k v) as [->|Hne]; [left; reflexivity|].
+        rewrite H in Hk by assumption. discriminate.
+      + constructor; [intros []|constructor].
+    - specialize (Hgen flags l [u; v]). cbn [length] in Hgen.
+      apply Hgen.
+      + intros k Hk. destruct (Nat.eq_dec k u) as [->|Hne1]; [left; reflexivity|].
+        destruct (Nat.eq_dec k v) as [->|Hne2]; [right; left; reflexivity|].
+        rewrite H in Hk by assumption. discriminate.
+      + constructor; [intros [|[]]; congruence|]. constructor; [intros []|constructor].
+  Qed.
+End SelectLemmas.
+
+(* ================================================================== *)
 (* 4. the main loop, for arbitrary perp / gtb / ltb / dmax / eps2       *)
 (* ================================================================== *)
 Section Proofs.
@@ -742,7 +859,8 @@ Section Proofs.
                   ltac:(lia) ltac:(lia) ltac:(lia) ltac:(rewrite length_upd; lia))
         as (Ph' & P0' & Ph1 & Eh' & E0' & Eh1 & Er2).
       rewrite Er2.
-      destruct (init_loop_spec path high l 1 _ Hpl
+      destruct (init_loop_spec path high l 1
+                  (upd (upd (repeat dmax l) 0 (perp P0 Ph P1)) high (perp Ph' P0' Ph1)) Hpl
                   ltac:(rewrite !length_upd; assumption) ltac:(lia) ltac:(lia))
         as (dsq & E & Hdl & Hsame & Hnew).
       exists dsq. split; [assumption|]. split; [lia|]. split; [discriminate|]. split.
@@ -753,7 +871,8 @@ Section Proofs.
           congruence.
       + intros k Pk Pp Pn Hk. apply Hnew. lia.
     - rewrite set_nth_ok by lia. rewrite set_nth_ok by (rewrite length_upd; lia).
-      destruct (init_loop_spec path high l 1 _ Hpl
+      destruct (init_loop_spec path high l 1
+                  (upd (upd (repeat dmax l) 0 dmax) high dmax) Hpl
                   ltac:(rewrite !length_upd; assumption) ltac:(lia) ltac:(lia))
         as (dsq & E & Hdl & Hsame & Hnew).
       exists dsq. split; [assumption|]. split; [lia|]. split; [|split; [discriminate|]].
@@ -831,4 +950,77 @@ Section Proofs.
     destruct (simplify_flags path c) as [flags|]; [|discriminate].
     inversion H. eauto.
   Qed.
+
+  (* ================================================================ *)
+  (* 6. (d) open paths keep both end points                            *)
+  (* ================================================================ *)
+
+  Lemma guard_true_iff c high i :
+    guard c high i = true <-> (c = true \/ (i <> 0 /\ i <> high)).
+  Proof.
+    unfold guard. destruct c; cbn [orb].
+    - split; auto.
+    - destruct (Nat.eqb_spec i high), (Nat.eqb_spec i 0); cbn [negb andb];
+        split; intros H; try discriminate; try reflexivity;
+        try (destruct H as [H|[H1 H2]]; [discriminate|contradiction]).
+      right. auto.
+  Qed.
+
+  Lemma nth_error_cond_upd (g : bool) (l : list D) i v k :
+    (g = true -> i <> k) ->
+    nth_error (if g then upd l i v else l) k = nth_error l k.
+  Proof.
+    intros H. destruct g; [|reflexivity]. apply nth_error_upd_neq. auto.
+  Qed.
+
+  Section OpenEnds.
+  (* for open paths: the end points are unflagged and their dsq is dmax *)
+  Definition ends_inv (high : nat) (flags : list bool) (dsq : list D) (curr : nat) : Prop :=
+    fl flags 0 = false /\ fl flags high = false /\
+    nth_error dsq 0 = Some dmax /\ nth_error dsq high = Some dmax.
+
+  Hypothesis dmax_gt_eps : gtb dmax eps2 = true.
+  Hypothesis dmax_not_lt : forall d, ltb dmax d = false.
+
+  Lemma ends_inv_step path high flags dsq curr x a b p2 nx dsq' :
+    basic path high flags dsq curr -> ends_inv high flags dsq curr ->
+    removal path false high flags dsq x a b p2 nx dsq' ->
+    ends_inv high (upd flags x true) dsq' b.
+  Proof.
+    intros HB (H0 & Hh & Hd0 & Hdh) HR.
+    destruct (r_why _ _ _ _ _ _ _ _ _ _ _ HR) as (dx & Edx & Hwhy).
+    assert (Hx0 : x <> 0).
+    { intros ->. rewrite Hd0 in Edx. inversion Edx; subst dx.
+      destruct Hwhy as [Hw|[d Hw]]; [|rewrite dmax_not_lt in Hw]; congruence. }
+    assert (Hxh : x <> high).
+    { intros ->. rewrite Hdh in Edx. inversion Edx; subst dx.
+      destruct Hwhy as [Hw|[d Hw]]; [|rewrite dmax_not_lt in Hw]; congruence. }
+    destruct (r_dsq _ _ _ _ _ _ _ _ _ _ _ HR)
+      as (Pa & Pb & Pp2 & Pnx & _ & _ & _ & _ & ->).
+    cbv zeta. unfold ends_inv. rewrite !fl_upd_neq by congruence.
+    split; [assumption|]. split; [assumption|].
+    split.
+    - rewrite !nth_error_cond_upd; [assumption| |];
+        intros Hg; apply guard_true_iff in Hg; destruct Hg as [|[? ?]]; congruence.
+    - rewrite !nth_error_cond_upd; [assumption| |];
+        intros Hg; apply guard_true_iff in Hg; destruct Hg as [|[? ?]]; congruence.
+  Qed.
+
+  Theorem simplify_flags_open_ends path flags :
+    4 <= length path -> simplify_flags path false = Some flags ->
+    fl flags 0 = false /\ fl flags (length path - 1) = false.
+  Proof.
+    intros Hl. unfold Simplify.simplify_flags.
+    destruct (Nat.ltb_spec (length path) 4); [lia|].
+    destruct (init_dsq_spec path false ltac:(lia)) as (dsq & E & Hdl & Hopen & _).
+    rewrite E. intros Hm. destruct (Hopen eq_refl) as [Hd0 Hdh].
+    destruct (main_loop_inv path false (length path - 1) (ends_inv (length path - 1))
+                (fun flags dsq curr x a b p2 nx dsq' HB HI HR =>
+                   ends_inv_step path _ flags dsq curr x a b p2 nx dsq' HB HI HR)
+                _ _ _ _ _ (init_basic path dsq ltac:(lia) Hdl)
+                ltac:(unfold ends_inv; rewrite !fl_repeat_false by lia; auto) Hm)
+      as (dsqF & currF & _ & (H0 & Hh & _) & _).
+    auto.
+  Qed.
+  End OpenEnds.
 End Proofs.
